@@ -445,4 +445,431 @@ example : agreeOnSupport exM exK exO := by
       srcAt exK .posZero [2, 2, 2] fl = srcAt exO .posZero [2, 2, 2] fl := by decide
   exact h8 fl hfl' hm
 
+/-! ## phase 3 — hard data consistency of the SSL / JSSL / VSharp engines -/
+
+/-- `x + (+0)` and `(+0) + x` are `x` with the sign of a zero forgotten — for every value class -/
+theorem add_posZero_right (v : FVal) : FVal.add v .posZero = some v.unsign := by cases v <;> rfl
+theorem add_posZero_left (v : FVal) : FVal.add .posZero v = some v.unsign := by cases v <;> rfl
+
+/-- `~mask` read under broadcasting: set exactly where the mask is unset (no default value involved) -/
+theorem notMask_entry (m : Tensor Int) (kR sR : List Nat) (hwf : m.data.length = prodR m.shape.reverse)
+    (h : outShapeR m.shape.reverse kR = some sR) (fl : Nat) (hfl : fl < prodR sR) :
+    srcAt (notMask m) default sR fl = if srcAt m default sR fl == 0 then 1 else 0 :=
+  srcAt_map (fun v : Int => if v == 0 then 1 else 0) m.shape m.data default default kR sR hwf h fl hfl
+
+theorem addT_some (a b o : Tensor FVal) (h : addT a b = some o) :
+    a.shape = b.shape ∧ o.shape = a.shape ∧
+    o.data = List.zipWith (fun u v => (FVal.add u v).getD (.fin 0)) a.data b.data := by
+  unfold addT at h
+  split at h
+  · rename_i hs
+    injection h with h; subst h
+    exact ⟨hs, rfl, rfl⟩
+  · cases h
+
+theorem hardDC_some (m : Tensor Int) (y p o : Tensor FVal) (h : hardDC m y p = some o) :
+    ∃ q, applyMask (notMask m) p = .ok q ∧ addT y q = some o := by
+  unfold hardDC at h
+  cases hq : applyMask (notMask m) p with
+  | ok q => rw [hq] at h; exact ⟨q, rfl, h⟩
+  | assertionError => rw [hq] at h; cases h
+  | runtimeError => rw [hq] at h; cases h
+
+/-- **Hard data consistency, sampled positions**: where the mask is set the output is the *measured* value (sign of a
+zero aside), whatever the network predicted there — `inf`, `-0`, anything. -/
+theorem hardDC_sampled (m : Tensor Int) (y p o : Tensor FVal) (h : hardDC m y p = some o)
+    (hwf : m.data.length = prodR m.shape.reverse) (fl : Nat) (hfl : fl < prodR o.shape.reverse)
+    (hm : srcAt m default o.shape.reverse fl ≠ 0) :
+    o.data[fl]? = (y.data[fl]?).map FVal.unsign := by
+  obtain ⟨q, hq, ha⟩ := hardDC_some m y p o h
+  obtain ⟨hs, hos, hd⟩ := addT_some y q o ha
+  obtain ⟨_, hw⟩ := applyMask_ok _ p q hq
+  obtain ⟨hsh, _, hp⟩ := where_pointwise _ _ p q hw
+  have hqo : q.shape = o.shape := by rw [hos, hs]
+  rw [hqo] at hsh hp
+  have hn := notMask_entry m p.shape.reverse o.shape.reverse hwf hsh fl hfl
+  have hm0 : srcAt m (0 : Int) o.shape.reverse fl ≠ 0 := hm
+  have hqv : q.data[fl]? = some .posZero := by
+    rw [hp fl hfl, hn]
+    simp [whereZero, MaskVal.eqConst, hm0]
+  rw [hd, List.getElem?_zipWith, hqv]
+  cases y.data[fl]? with
+  | none => rfl
+  | some a => simp [add_posZero_right]
+
+/-- **Hard data consistency, unsampled positions**: the output is `measured + prediction`; for a properly masked
+measurement (`+0` there) it is the prediction (sign of a zero aside). -/
+theorem hardDC_unsampled (m : Tensor Int) (y p o : Tensor FVal) (h : hardDC m y p = some o)
+    (hwf : m.data.length = prodR m.shape.reverse) (fl : Nat) (hfl : fl < prodR o.shape.reverse)
+    (hm : srcAt m default o.shape.reverse fl = 0) (hy : y.data[fl]? = some .posZero) :
+    o.data[fl]? = some (srcAt p .posZero o.shape.reverse fl).unsign := by
+  obtain ⟨q, hq, ha⟩ := hardDC_some m y p o h
+  obtain ⟨hs, hos, hd⟩ := addT_some y q o ha
+  obtain ⟨_, hw⟩ := applyMask_ok _ p q hq
+  obtain ⟨hsh, _, hp⟩ := where_pointwise _ _ p q hw
+  have hqo : q.shape = o.shape := by rw [hos, hs]
+  rw [hqo] at hsh hp
+  have hn := notMask_entry m p.shape.reverse o.shape.reverse hwf hsh fl hfl
+  have hm0 : srcAt m (0 : Int) o.shape.reverse fl = 0 := hm
+  have hqv : q.data[fl]? = some (srcAt p .posZero o.shape.reverse fl) := by
+    rw [hp fl hfl, hn]
+    simp [whereZero, MaskVal.eqConst, hm0]
+  rw [hd, List.getElem?_zipWith, hqv, hy]
+  simp [add_posZero_left]
+
+/-- **The prediction at sampled positions never reaches the data-consistent output**: two predictions that agree
+wherever the mask is *unset* give the same output. -/
+theorem hardDC_prediction_noninterference (m : Tensor Int) (y p p' : Tensor FVal)
+    (h : agreeOnSupport (notMask m) p p') : hardDC m y p = hardDC m y p' := by
+  unfold hardDC
+  rw [mask_noninterference (notMask m) p p' h]
+
+/-- same for the whole SSL / JSSL iteration output (padding and target projection included) -/
+theorem sslOutput_prediction_noninterference (m : Tensor Int) (y p p' : Tensor FVal) (pad tgt : Option (Tensor Int))
+    (h : agreeOnSupport (notMask m) p p') : sslOutput m y p pad tgt = sslOutput m y p' pad tgt := by
+  unfold sslOutput
+  rw [hardDC_prediction_noninterference m y p p' h]
+
+/-- SSL training: the output k-space is exactly `+0` off the *target* mask -/
+theorem sslOutput_off_target (m t : Tensor Int) (y p o : Tensor FVal) (pad : Option (Tensor Int))
+    (h : sslOutput m y p pad (some t) = some o) (fl : Nat) (hfl : fl < prodR o.shape.reverse)
+    (ht : srcAt t default o.shape.reverse fl = 0) : o.data[fl]? = some .posZero := by
+  unfold sslOutput at h
+  cases hh : hardDC m y p with
+  | none => simp [hh] at h
+  | some o1 =>
+    simp only [hh] at h
+    cases hp : applyPadding pad o1 with
+    | ok o2 =>
+      simp only [hp] at h
+      have : applyMask t o2 = .ok o := by
+        cases ha : applyMask t o2 <;> simp_all [Res.toOption]
+      exact mask_off_support_int t o2 o this fl hfl ht
+    | assertionError => simp [hp] at h
+    | runtimeError => simp [hp] at h
+
+/-- inference: the output k-space is exactly `+0` inside the zero-padding -/
+theorem sslOutput_in_padding (m pad : Tensor Int) (y p o : Tensor FVal)
+    (h : sslOutput m y p (some pad) none = some o) (fl : Nat) (hfl : fl < prodR o.shape.reverse)
+    (hp1 : srcAt pad default o.shape.reverse fl = 1) : o.data[fl]? = some .posZero := by
+  unfold sslOutput at h
+  cases hh : hardDC m y p with
+  | none => simp [hh] at h
+  | some o1 =>
+    simp only [hh] at h
+    cases hp : applyPadding (some pad) o1 with
+    | ok o2 =>
+      simp only [hp, Option.some.injEq] at h
+      subst h
+      have hp0 : srcAt pad (0 : Int) o2.shape.reverse fl = 1 := hp1
+      rw [padding_pointwise pad o1 o2 hp fl hfl]
+      simp [MaskVal.eqConst, hp0]
+    | assertionError => simp [hp] at h
+    | runtimeError => simp [hp] at h
+
+/-! ## phase 3 — the mask-function path of the pipeline: `CreateSamplingMask` → `ApplyMask` -/
+
+theorem create_mask_shape_default (ks : List Nat) : createMaskShape none ks = some (ks.drop 1) := rfl
+theorem create_mask_shape_empty (ks : List Nat) : createMaskShape (some []) ks = some (ks.drop 1) := rfl
+
+/-- **`pipeline_mask_path`**: the masked k-space the pipeline produces is `apply_mask(kspace, m)` with
+`m = apply_padding(mask_func(shape, seed(filename)), padding)` and `shape` as `CreateSamplingMask` computes it -/
+theorem pipeline_mask_path {π} [Inhabited π] [MaskVal π] (mf : List Nat → Option (List Int) → Tensor FVal)
+    (opt : Option (List (Option Nat))) (useSeed : Bool) (fn : List Int) (pad : Option (Tensor π))
+    (k o m : Tensor FVal) (h : pipelineMasked mf opt useSeed fn pad k = some (o, m)) :
+    ∃ shp, createMaskShape opt k.shape = some shp ∧
+      applyPadding pad (mf shp (seedOf useSeed fn)) = .ok m ∧ applyMask m k = .ok o := by
+  unfold pipelineMasked createSamplingMask at h
+  cases hs : createMaskShape opt k.shape with
+  | none => simp [hs] at h
+  | some shp =>
+    simp only [hs] at h
+    cases hp : applyPadding pad (mf shp (seedOf useSeed fn)) with
+    | ok m' =>
+      simp only [hp, Res.toOption] at h
+      cases ha : applyMask m' k with
+      | ok o' =>
+        simp only [ha, Option.map_some, Option.some.injEq, Prod.mk.injEq] at h
+        obtain ⟨h1, h2⟩ := h
+        subst h1 h2
+        exact ⟨shp, rfl, hp, ha⟩
+      | assertionError => simp [ha] at h
+      | runtimeError => simp [ha] at h
+    | assertionError => simp [hp, Res.toOption] at h
+    | runtimeError => simp [hp, Res.toOption] at h
+
+/-- with the default options and no padding this is exactly the mask-function path of `apply_mask`
+(`mask_func_path`): the mask function sees `kspace.shape[1:]` -/
+theorem pipeline_default_is_mask_func_path (mf : List Nat → Option (List Int) → Tensor FVal) (useSeed : Bool)
+    (fn : List Int) (k o m : Tensor FVal)
+    (h : pipelineMasked mf none useSeed fn (none : Option (Tensor Int)) k = some (o, m)) :
+    m = mf (k.shape.drop 1) (seedOf useSeed fn) ∧ applyMask m k = .ok o := by
+  obtain ⟨shp, hs, hp, ha⟩ := pipeline_mask_path mf none useSeed fn none k o m h
+  rw [create_mask_shape_default] at hs
+  injection hs with hs; subst hs
+  rw [padding_none] at hp
+  injection hp with hp
+  exact ⟨hp.symm, ha⟩
+
+/-- same file name ⇒ same seed ⇒ same mask request (the seed is a function of the file name only) -/
+theorem seedOf_filename_only (useSeed : Bool) (fn : List Int) :
+    seedOf useSeed fn = if useSeed then some fn else none := rfl
+
+/-- the stored sampling mask is unset wherever the padding is 1, for any mask function -/
+theorem sampling_mask_padding_cleared {π} [Inhabited π] [MaskVal π]
+    (mf : List Nat → Option (List Int) → Tensor FVal) (opt : Option (List (Option Nat))) (useSeed : Bool)
+    (fn : List Int) (pad : Tensor π) (k m : Tensor FVal)
+    (h : createSamplingMask mf opt useSeed fn (some pad) k = some m) (fl : Nat)
+    (hfl : fl < prodR m.shape.reverse) (hp1 : MaskVal.eqConst (srcAt pad default m.shape.reverse fl) 1 = true) :
+    m.data[fl]? = some .posZero := by
+  unfold createSamplingMask at h
+  cases hs : createMaskShape opt k.shape with
+  | none => simp [hs] at h
+  | some shp =>
+    simp only [hs] at h
+    cases hp : applyPadding (some pad) (mf shp (seedOf useSeed fn)) with
+    | ok m' =>
+      simp only [hp, Res.toOption, Option.some.injEq] at h
+      subst h
+      rw [padding_pointwise pad _ m' hp fl hfl]
+      simp [hp1]
+    | assertionError => simp [hp, Res.toOption] at h
+    | runtimeError => simp [hp, Res.toOption] at h
+
+/-- **`pipeline_padding_zero`**: in the documented layout (padding and sampling mask of the same shape) the masked
+k-space is exactly `+0` at every position inside the zero-padding — whatever the mask function returned there and
+whatever the k-space holds. -/
+theorem pipeline_padding_zero {π} [Inhabited π] [MaskVal π] (mf : List Nat → Option (List Int) → Tensor FVal)
+    (opt : Option (List (Option Nat))) (useSeed : Bool) (fn : List Int) (pad : Tensor π) (k o m : Tensor FVal)
+    (h : pipelineMasked mf opt useSeed fn (some pad) k = some (o, m)) (hlay : m.shape = pad.shape) (fl : Nat)
+    (hfl : fl < prodR o.shape.reverse)
+    (hp1 : MaskVal.eqConst (srcAt pad default o.shape.reverse fl) 1 = true) :
+    o.data[fl]? = some .posZero := by
+  obtain ⟨shp, _, hp, ha⟩ := pipeline_mask_path mf opt useSeed fn (some pad) k o m h
+  obtain ⟨hsh, _, _⟩ := mask_shape m k o ha
+  have hidx := srcAt_index_lt _ _ _ hsh fl hfl
+  -- the entry of the stored mask that this output position reads
+  have hm' := padding_pointwise pad _ m hp _ hidx
+  have hpad : srcAt pad default m.shape.reverse
+      (ravelR m.shape.reverse (bIdxR m.shape.reverse (unravelR o.shape.reverse fl))) =
+      srcAt pad default o.shape.reverse fl := by
+    simp only [srcAt, ← hlay, bIdxR_unravelR_self, ravelR_unravelR _ _ hidx]
+  rw [hpad, hp1] at hm'
+  apply mask_off_support m k o ha fl hfl
+  simp only [srcAt, List.getD_eq_getElem?_getD, hm']
+  rfl
+
+/-! ## phase 3 — the ACS sites of the data pipeline (repaired: `apply_mask`; pinned: `kspace * acs_mask + 0.0`) -/
+
+/-- **as repaired**: the ACS k-space does not depend on any entry outside the ACS mask (±∞ included) … -/
+theorem acs_noninterference (m : Tensor Int) (k k' : Tensor FVal) (h : agreeOnSupport m k k') :
+    acsKspace m k = acsKspace m k' := mask_noninterference m k k' h
+
+/-- … and is exactly `+0` there -/
+theorem acs_off_mask_zero (m : Tensor Int) (k o : Tensor FVal) (h : acsKspace m k = .ok o) (fl : Nat)
+    (hfl : fl < prodR o.shape.reverse) (hm : srcAt m default o.shape.reverse fl = 0) :
+    o.data[fl]? = some .posZero := mask_off_support_int m k o h fl hfl hm
+
+
+/-- for finite k-space values the product form **is** the `where` form (the `+ 0.0` removes the `-0` a product leaves) -/
+theorem mul_plus_zero_eq_where_of_finite (mv : Int) (hmv : mv = 0 ∨ mv = 1) (kv : FVal)
+    (hf : kv.isFinite = true) (hw : kv.wf = true) : mulPlusZero mv kv = (whereZero mv kv).unsign := by
+  rcases hmv with rfl | rfl
+  · cases kv with
+    | fin q =>
+      by_cases hq : q < 0 <;>
+        simp [mulPlusZero, FVal.mulInt, FVal.add, whereZero, MaskVal.eqConst, FVal.unsign, hq]
+    | posInf => simp [FVal.isFinite] at hf
+    | negInf => simp [FVal.isFinite] at hf
+    | posZero => decide
+    | negZero => decide
+  · cases kv with
+    | fin q =>
+      simp [mulPlusZero, FVal.mulInt, FVal.add, whereZero, MaskVal.eqConst, FVal.unsign]
+    | posInf => simp [FVal.isFinite] at hf
+    | negInf => simp [FVal.isFinite] at hf
+    | posZero => decide
+    | negZero => decide
+
+/-- **Finding of phase 3 (repaired in /repo)**: for an infinite entry outside the ACS mask the product form is NaN (the
+ill-formed value `fin 0`), where `torch.where(acs_mask == 0, 0, kspace)` gives `+0`: a value from a location that is
+not sampled reached the ACS image, hence the sensitivity map. -/
+theorem acs_mul_pinned_violates :
+    mulPlusZero 0 .posInf = .fin 0 ∧ mulPlusZero 0 .negInf = .fin 0 ∧ (FVal.fin 0).wf = false ∧
+    whereZero (0 : Int) .posInf = .posZero := by decide
+
+/-- the pinned product form: non-interference held only when all entries involved are finite
+(`acs_mul_pinned_violates` is the witness for the rest) -/
+theorem acs_pinned_noninterference_partial (m : Tensor Int) (k k' : Tensor FVal) (h : agreeOnSupport m k k')
+    (hm : ∀ sR fl, srcAt m default sR fl = 0 ∨ srcAt m default sR fl = 1)
+    (hk : ∀ sR fl, (srcAt k .posZero sR fl).isFinite = true ∧ (srcAt k .posZero sR fl).wf = true)
+    (hk' : ∀ sR fl, (srcAt k' .posZero sR fl).isFinite = true ∧ (srcAt k' .posZero sR fl).wf = true) :
+    acsKspacePinned m k = acsKspacePinned m k' := by
+  obtain ⟨hshape, hag⟩ := h
+  unfold acsKspacePinned whereWith
+  rw [← hshape]
+  cases hs : outShapeR m.shape.reverse k.shape.reverse with
+  | none => rfl
+  | some sR =>
+    simp only
+    congr 2
+    apply List.map_congr_left
+    intro fl hfl
+    have hlt : fl < prodR sR := by simpa using hfl
+    rw [mul_plus_zero_eq_where_of_finite _ (hm sR fl) _ (hk sR fl).1 (hk sR fl).2,
+      mul_plus_zero_eq_where_of_finite _ (hm sR fl) _ (hk' sR fl).1 (hk' sR fl).2]
+    unfold whereZero
+    cases hmz : MaskVal.eqConst (srcAt m default sR fl) 0 with
+    | true => simp
+    | false => simp [hag sR hs fl hlt hmz]
+
+/-! ## phase 3 — non-vacuity -/
+
+def exY : Tensor FVal :=      -- measured k-space, masked with `exM` (rows 0 unsampled)
+  { shape := [2, 2, 2], data := [.posZero, .posZero, .fin 3, .fin (-4), .posZero, .posZero, .negZero, .fin 9] }
+def exP : Tensor FVal :=      -- a prediction with extreme values at sampled positions
+  { shape := [2, 2, 2], data := [.fin 5, .negZero, .posInf, .negInf, .fin (-6), .fin 7, .posInf, .fin 1] }
+def exD : Tensor FVal :=
+  { shape := [2, 2, 2], data := [.fin 5, .posZero, .fin 3, .fin (-4), .fin (-6), .fin 7, .posZero, .fin 9] }
+def exMfull : Tensor Int := { shape := [2, 2, 1], data := [0, 1, 0, 1] }
+
+example : hardDC exMfull exY exP = some exD := by decide
+example : exMfull.data.length = prodR exMfull.shape.reverse := by decide
+example : sslOutput exMfull exY exP none (some { shape := [2, 1, 1], data := [1, 0] }) =
+    some { shape := [2, 2, 2], data := [.fin 5, .posZero, .fin 3, .fin (-4), .posZero, .posZero, .posZero, .posZero] } := by
+  decide
+example : createMaskShape (some [none, some 4]) [3, 5, 4, 2] = some [5, 4, 2] := by decide
+example : createMaskShape (some [some 5, some 4]) [3, 5, 4, 2] = some [5, 4, 2] := by decide
+example : createMaskShape (some [none, none, none]) [3, 5, 4, 2] = none := by decide   -- IndexError
+def exMf (shp : List Nat) (_ : Option (List Int)) : Tensor FVal :=
+  { shape := [shp.getD 0 0, 1, 1], data := [.fin 1, .posZero] }
+def exPad : Tensor Int := { shape := [2, 1, 1], data := [1, 0] }
+def exZero : Tensor FVal := { shape := [2, 2, 2], data := List.replicate 8 .posZero }
+example : pipelineMasked exMf none true [102] (some exPad) exK =
+    some (exZero, { shape := [2, 1, 1], data := [.posZero, .posZero] }) := by decide
+def exAcs : Tensor FVal :=    -- `fin 0` = NaN where an infinite entry met a zero mask entry
+  { shape := [2, 2, 2], data := [.posZero, .fin 0, .fin 3, .fin (-4), .fin 0, .posZero, .posZero, .fin 9] }
+example : acsKspacePinned exM exK = some exAcs := by decide
+example : acsKspace exM exK = .ok exO := by decide
+example : mulPlusZero 1 (.fin (-4)) = (whereZero (1 : Int) (.fin (-4))).unsign := by decide
+
+/-! ## phase 3 — broadcasting of the documented mask layouts over coil, slice / time frame and complex axis -/
+
+theorem canonical_outShape_2d (c h w : Nat) : outShapeR [1, w, h, 1] [2, w, h, c] = some [2, w, h, c] := by
+  have e1 : ∀ n : Nat, (1 = n) = (n = 1) := fun n => propext eq_comm
+  by_cases hc : c = 1 <;> simp [outShapeR, bShapeR, hc, e1]
+
+/-- 2-D multi-coil data: the same `(h, w)` pattern masks every coil and both complex components -/
+theorem mask_canonical_2d {μ} [Inhabited μ] [MaskVal μ] (m : Tensor μ) (k o : Tensor FVal) (c h w : Nat)
+    (hm : m.shape = [1, h, w, 1]) (hk : k.shape = [c, h, w, 2]) (hok : applyMask m k = .ok o)
+    (ic ih iw ir : Nat) (hc : ic < c) (hh : ih < h) (hw : iw < w) (hr : ir < 2) :
+    o.shape = [c, h, w, 2] ∧
+    getIdx o .posZero [ic, ih, iw, ir] =
+      whereZero (getIdx m default [0, ih, iw, 0]) (getIdx k .posZero [ic, ih, iw, ir]) := by
+  obtain ⟨hsh, _, _⟩ := mask_shape m k o hok
+  rw [hm, hk] at hsh
+  simp only [List.reverse_cons, List.reverse_nil, List.nil_append, List.cons_append] at hsh
+  rw [canonical_outShape_2d c h w] at hsh
+  have hos : o.shape = [c, h, w, 2] := by
+    have := congrArg List.reverse (Option.some.inj hsh)
+    simpa using this.symm
+  refine ⟨hos, ?_⟩
+  have hin : inRange o.shape [ic, ih, iw, ir] := by
+    rw [hos]; simp [inRange, inRangeR]; omega
+  rw [mask_pointwise_idx m k o hok _ hin, hm, hk]
+  have h1 : (if h = 1 then 0 else ih) = ih := by split <;> omega
+  have h2 : (if w = 1 then 0 else iw) = iw := by split <;> omega
+  have h3 : (if c = 1 then 0 else ic) = ic := by split <;> omega
+  simp [bIdx, bIdxR, h1, h2, h3]
+
+
+/-- the broadcast shape of a canonical 3-D / dynamic mask `(1, t', h, w, 1)` (`t' = 1`: one pattern for every slice;
+`t' = s`: one pattern per slice / time frame) against k-space `(c, s, h, w, 2)` -/
+theorem canonical_outShape (c s h w t' : Nat) (ht : t' = 1 ∨ t' = s) :
+    outShapeR [1, w, h, t', 1] [2, w, h, s, c] = some [2, w, h, s, c] := by
+  have e1 : ∀ n : Nat, (1 = n) = (n = 1) := fun n => propext eq_comm
+  by_cases hc : c = 1 <;> by_cases hs : s = 1 <;> rcases ht with h1 | h1 <;>
+    simp [outShapeR, bShapeR, hc, hs, h1, e1]
+
+theorem mask_canonical_3d {μ} [Inhabited μ] [MaskVal μ] (m : Tensor μ) (k o : Tensor FVal) (c s h w t' : Nat)
+    (ht : t' = 1 ∨ t' = s) (hm : m.shape = [1, t', h, w, 1]) (hk : k.shape = [c, s, h, w, 2])
+    (hok : applyMask m k = .ok o) (ic is ih iw ir : Nat) (hc : ic < c) (hs : is < s) (hh : ih < h) (hw : iw < w)
+    (hr : ir < 2) :
+    o.shape = [c, s, h, w, 2] ∧
+    getIdx o .posZero [ic, is, ih, iw, ir] =
+      whereZero (getIdx m default [0, if t' = 1 then 0 else is, ih, iw, 0]) (getIdx k .posZero [ic, is, ih, iw, ir]) := by
+  obtain ⟨hsh, _, _⟩ := mask_shape m k o hok
+  rw [hm, hk] at hsh
+  simp only [List.reverse_cons, List.reverse_nil, List.nil_append, List.cons_append] at hsh
+  rw [canonical_outShape c s h w t' ht] at hsh
+  have hos : o.shape = [c, s, h, w, 2] := by
+    have := congrArg List.reverse (Option.some.inj hsh)
+    simpa using this.symm
+  refine ⟨hos, ?_⟩
+  have hin : inRange o.shape [ic, is, ih, iw, ir] := by
+    rw [hos]; simp [inRange, inRangeR]; omega
+  rw [mask_pointwise_idx m k o hok _ hin, hm, hk]
+  have h1 : (if h = 1 then 0 else ih) = ih := by split <;> omega
+  have h2 : (if w = 1 then 0 else iw) = iw := by split <;> omega
+  have h3 : (if c = 1 then 0 else ic) = ic := by split <;> omega
+  have h4 : (if s = 1 then 0 else is) = is := by split <;> omega
+  simp [bIdx, bIdxR, h1, h2, h3, h4]
+  
+
+example : applyMask ({ shape := [1, 2, 1, 1, 1], data := [0, 1] } : Tensor Int)
+    { shape := [1, 2, 1, 1, 2], data := [.fin 1, .fin 2, .fin 3, .negZero] } =
+    .ok { shape := [1, 2, 1, 1, 2], data := [.posZero, .posZero, .fin 3, .negZero] } := by decide
+
+/-! ## phase 3 — why no state may survive a call -/
+
+/-- the slot always holds a correct pair when the key determines the result -/
+theorem memo_transparent {A K R} [DecidableEq K] (key : A → K) (f : A → R)
+    (hkey : ∀ a b, key a = key b → f a = f b) (s : Memo A K R)
+    (hs : ∀ k r, s.slot = some (k, r) → ∀ a, key a = k → f a = r) (as : List A) :
+    Memo.run key f s as = as.map f := by
+  induction as generalizing s with
+  | nil => rfl
+  | cons a as ih =>
+    unfold Memo.run Memo.call
+    cases hslot : s.slot with
+    | none =>
+      simp only [List.map_cons, List.cons.injEq, true_and]
+      apply ih
+      intro k r h b hb
+      simp only [Option.some.injEq, Prod.mk.injEq] at h
+      obtain ⟨h1, h2⟩ := h
+      subst h1 h2
+      exact hkey _ _ hb
+    | some kr =>
+      obtain ⟨k, r⟩ := kr
+      by_cases hk : k = key a
+      · simp only [hk, if_true, List.map_cons, List.cons.injEq]
+        refine ⟨(hs k r hslot a hk.symm).symm, ih s hs⟩
+      · simp only [hk, if_false, List.map_cons, List.cons.injEq, true_and]
+        apply ih
+        intro k' r' h b hb
+        simp only [Option.some.injEq, Prod.mk.injEq] at h
+        obtain ⟨h1, h2⟩ := h
+        subst h1 h2
+        exact hkey _ _ hb
+
+/-- **a complete key is harmless**: every call history returns what the stateless operator returns -/
+theorem memo_complete_key_transparent {A K R} [DecidableEq K] (key : A → K) (f : A → R)
+    (hkey : ∀ a b, key a = key b → f a = f b) (as : List A) :
+    Memo.run key f ⟨none⟩ as = as.map f :=
+  memo_transparent key f hkey ⟨none⟩ (by intro k r h; cases h) as
+
+/-- **an incomplete key leaks**: memoising `apply_mask` under the k-space alone (tensor identity / address / shape),
+the second call with another mask returns the first call's support — an unsampled value of the current mask
+(here `+∞` at position 1 … ) reaches the output -/
+theorem memo_kspace_only_key_violates :
+    Memo.run (fun (a : Tensor Int × Tensor FVal) => a.2) (fun a => applyMask a.1 a.2) ⟨none⟩ [(exM, exK), (exM2, exK)] =
+      [.ok exO, .ok exO] ∧ applyMask exM2 exK ≠ .ok exO := by decide
+
+
+/-- the history the driver executes is the stateless map -/
+theorem mask_history_stateless (calls : List (Tensor Int × Tensor FVal)) :
+    maskHistory calls = calls.map fun a => applyMask a.1 a.2 :=
+  memo_complete_key_transparent (fun a => a) _ (by intro a b h; rw [h]) calls
+
 end DirectVerif.C03
